@@ -11,6 +11,8 @@ package main
 
 import (
 	"fmt"
+	"os"
+	"path/filepath"
 	"strings"
 
 	"github.com/zerx-lab/wordZero/pkg/document"
@@ -85,7 +87,19 @@ func (g *mdGen) inlines(n int, allowBreak bool) []mdInline {
 				out = append(out, mdInline{kind: "text", text: g.word()})
 				break
 			}
-			switch g.r.intn(4) {
+			nk := 4
+			if allowBreak {
+				nk = 5 // pictures in running text only: headings and quotes show the alternative text alone, which no clause of the property is about
+			}
+			switch g.r.intn(nk) {
+			case 4:
+				// a picture: the converter puts a text in its place ("[图片: " + the alternative text, or the path)
+				alt := g.word()
+				if g.r.chance(25) {
+					alt = ""
+				}
+				out = append(out, mdInline{kind: "image", text: alt, url: "img/p" + fmt.Sprint(g.r.intn(9)) + ".png"})
+				g.feats["picture"]++
 			case 0:
 				out = append(out, mdInline{kind: "escape", text: []string{"*", "_", "#", "[", "`", "\\"}[g.r.intn(6)]})
 				g.feats["backslash escape"]++
@@ -129,6 +143,8 @@ func printInlines(ins []mdInline, b *strings.Builder) {
 			b.WriteString(entityNames[in.text])
 		case "autolink":
 			b.WriteString("<" + in.url + ">")
+		case "image":
+			b.WriteString("![" + in.text + "](" + in.url + ")")
 		case "strongemph":
 			b.WriteString("**" + in.text + " *" + in.kids[0].text + "* tail**")
 		}
@@ -161,6 +177,12 @@ func expectInlines(ins []mdInline) []xRun {
 			out = append(out, xRun{text: " "})
 		case "autolink":
 			out = append(out, xRun{text: in.url})
+		case "image":
+			if in.text != "" {
+				out = append(out, xRun{text: "[图片: " + in.text + "]"})
+			} else {
+				out = append(out, xRun{text: "[图片: " + in.url + "]"})
+			}
 		case "strongemph":
 			out = append(out, xRun{text: in.text + " ", bold: true}, xRun{text: in.kids[0].text, bold: true, italic: true}, xRun{text: " tail", bold: true})
 		}
@@ -620,7 +642,19 @@ func runC19(cfg *runCfg) error {
 		var d *document.Document
 		var err error
 		opts := mdOptions(cr)
-		guard("ConvertString", &ps, func() { d, err = markdown.NewConverter(opts).ConvertString(src, nil) })
+		if cr.chance(10) && !strings.Contains(src, "![](") {
+			// the file route: ConvertFile writes a document, which is opened again
+			feats["converted through ConvertFile"]++
+			mdPath, docxPath := filepath.Join(cfg.out, "c19in.md"), filepath.Join(cfg.out, "c19out.docx")
+			os.WriteFile(mdPath, []byte(src), 0644)
+			guard("ConvertFile", &ps, func() {
+				if err = markdown.NewConverter(opts).ConvertFile(mdPath, docxPath, nil); err == nil {
+					d, err = document.Open(docxPath)
+				}
+			})
+		} else {
+			guard("ConvertString", &ps, func() { d, err = markdown.NewConverter(opts).ConvertString(src, nil) })
+		}
 		if len(ps) > 0 {
 			fail(ci, "no_panic", "panic", fmt.Sprintf("%q: %s", src, ps[0].msg), nil)
 			continue
